@@ -159,9 +159,19 @@ func (c *Ctx) ApplyFloors() {
 	}
 	sort.Strings(floorRules)
 	for _, r := range floorRules {
-		if counts[r] < c.floors[r] {
+		// The number confirmed by hand is recorded; the alarm threshold is half of it (at least one):
+		// a clean-up that merges two sites into one helper lowers the count by one without anything
+		// having drifted, whereas a rule whose anchors moved away loses most or all of its instances.
+		confirmed := c.floors[r]
+		need := (confirmed + 1) / 2
+		if need < 1 {
+			need = 1
+		}
+		if counts[r] < need {
 			c.add("anchor-floor", r, token.NoPos, Undecided,
-				fmt.Sprintf("rule %s matched %d instance(s), fewer than the %d confirmed by hand: anchors drifted, the rule would pass vacuously", r, counts[r], c.floors[r]))
+				fmt.Sprintf("rule %s matched %d instance(s), fewer than half of the %d confirmed by hand: anchors drifted, the rule would pass vacuously", r, counts[r], confirmed))
+		} else if counts[r] < confirmed {
+			c.Note("rule %s matched %d instance(s); %d were confirmed by hand when the rule was written (sites merged or removed since)", r, counts[r], confirmed)
 		}
 	}
 	if len(c.Obls) == 0 {
